@@ -21,7 +21,7 @@ TEXT["C03"] = dict(
          "parallel engine's threads. Correspondence: the real engines under a virtual clock vs the timed model (hops, accepted sequence, send log, elapsed) and the "
          "shape predicate evaluated on the implementation's own output.",
     note="Hand-written model tied by correspondence (tie kind B). Trusted: Coq kernel, harness scripted driver + synctest, extraction (cross-checked with vm_compute). "
-         "The real protocol drivers are covered by C01/C02, not here.",
+         "The real protocol drivers are covered by C01/C02, not here. Tie kind A as well: validateProbe is translated from the source on every run (tools/goextract/exprs.go) and proved equal to the model's valid_probe for all inputs.",
     technique="Coq proof (list induction over accepted replies, invariant over a 2-thread transition system) + differential run of the real engines under synctest",
 )
 TEXT["C07"] = dict(
@@ -29,7 +29,7 @@ TEXT["C07"] = dict(
          "accepted replies only through those two rules); invariant over all interleavings of sender/receiver/deadline steps of a transition system of the parallel "
          "engine: shared table = merge of accepted so far, sent TTLs = first, first+1, ... Correspondence as for C03, with the merge rule evaluated on the implementation's output; "
          "enumerated exhaustively for <= 3 TTLs x <= 4 replies x all arrival orders, random beyond.",
-    note="Atomicity of writeProbe under resultsMu is assumed by the transition system (C14 supports it). Go scheduler not modelled.",
+    note="Atomicity of writeProbe under resultsMu is assumed by the transition system (C14 supports it). Go scheduler not modelled. Tie kind A as well: the body of writeProbe and the serial engine's merge condition are translated from the source on every run and proved equal to the model's should_update.",
     technique="Coq proof (invariant over all interleavings of a transition system + fold characterisation) + differential run of the real parallel engine under synctest",
 )
 
@@ -63,7 +63,7 @@ TEXT["C08"] = dict(
     text="Coq theorems on the timed models: for ANY network script the parallel engine returns before timeout + delay*count + poll and the serial engine within count*max(timeout+poll, delay); with the caller's context cancelled at any "
          "instant the receiver leaves within one poll interval and the sender within one send delay; GetPublicIP ends within providers x per-checker timeout for ANY provider behaviour; constants regenerated from source. "
          "Correspondence: real engines (incl. cancellation at arbitrary instants), real GetPublicIP over a stalling RoundTripper and real reverse-DNS fan-out over a stalled resolver, elapsed virtual time compared exactly.",
-    note="PARTIAL: oracles — Source.Read returns by its deadline; HTTP client / resolver return by the deadline of the context they are given. The SACK handshake reader is modelled with time and bounded by its single 500 ms deadline for every packet stream (real reader compared under the virtual clock); the whole SACK run is bounded by composition (dial under the run context is an oracle); the shape of the reader in the source (one deadline armed before the loop, none inside, 500 ms) is regenerated on every run (tools/goextract/structure.go) and equated with the model. The RunTraceroute-level sum is not modelled; serial-engine cancellation is checked on the implementation only.",
+    note="PARTIAL: oracles — Source.Read returns by its deadline; HTTP client / resolver return by the deadline of the context they are given. The SACK handshake reader is modelled with time and bounded by its single 500 ms deadline for every packet stream (real reader compared under the virtual clock); the whole SACK run is bounded by composition (dial under the run context is an oracle); the shape of the reader in the source (one deadline armed before the loop, none inside, 500 ms) is regenerated on every run (tools/goextract/structure.go) and equated with the model. The RunTraceroute-level sum is not modelled; serial-engine cancellation is checked on the implementation only. Tie kind A as well: ProbeCount, TracerouteParallelParams.MaxTimeout and sack.Params.MaxTimeout are translated from the source on every run and proved equal to the model's count / deadline.",
     technique="Coq proof (fuel-indexed induction on timed engine models, bound invariant) + differential timing of the real code under synctest's virtual clock")
 
 _DRVNOTE = ("Tie kind B. The byte-level decoders/builders model third-party gopacket code and are validated, not verified; the theorems are about the matchers' logic on the parsed view plus the decoders' totality. "
@@ -84,7 +84,7 @@ TEXT["C05"] = dict(text="Coq theorems: a hop's RTT = processing instant - send i
     technique="Coq proof (matcher soundness carries the send time; merge rule) + exact virtual-clock timing of the real drivers and engines")
 TEXT["C06"] = dict(text="Coq theorems: TTL/hop-limit byte = probed TTL for every builder; identifiers unique per run at every base incl. wrap-around; IPv4 header, ICMPv4 and all TCP segment checksums verify for all field values; emitted TTLs = first, first+1, ... in every interleaving; pacing / stop-after-destination on the timed models via C08's models. "
     "Correspondence: byte-for-byte equality of the real builders' output with the model over all 255 TTLs x variants x wrap-around bases, an independent well-formedness + receiver-side checksum check on the emitted bytes, and the send log of full engine runs.",
-    note=_DRVNOTE + " Checksum validity is proved for every builder (IPv4 header, ICMPv4/ICMPv6 echo, UDP, TCP SYN/SACK). Observation (not a finding): gopacket emits a computed UDP checksum of 0 as 0, which IPv6 forbids (1 in 65535 probes).",
+    note=_DRVNOTE + " Checksum validity is proved for every builder (IPv4 header, ICMPv4/ICMPv6 echo, UDP, TCP SYN/SACK). Observation (not a finding): gopacket emits a computed UDP checksum of 0 as 0, which IPv6 forbids (1 in 65535 probes). Tie kind A as well: getNextPacketIDAndSeqNum and the UDP/IPv4 IP-ID expression are translated from the source on every run and proved equal to the identifiers the driver model emits.",
     technique="Coq proof (one's-complement arithmetic, modular injectivity, transition-system invariant) + byte-exact differential run of the real packet builders")
 TEXT["C09"] = dict(text="Coq theorems, every non-empty byte string / variant / state: the outcome is hop, skip or SACK's not-supported, never a run-aborting error; not-supported iff the packet is a non-SYN/FIN/RST segment from the target on the probed connection without SACK blocks; results depend on accepted replies only. "
     "Correspondence: every truncation length and byte flip of every genuine reply, random bytes, own probes, pre-send traffic through the real drivers: never a panic or fatal error, outcome = model.",
@@ -93,7 +93,7 @@ TEXT["C09"] = dict(text="Coq theorems, every non-empty byte string / variant / s
 
 TEXT["C19"] = dict(text="Coq theorems over ALL integers: an accepted request is executed with exactly the stated TTL range, port (default when 0), protocol and method, all within wire range; TTL bounds outside 1..255, ports outside 1..65535, unknown protocol or method are rejected. "
     "Correspondence: the real RunTraceroute over the simulated wire on the boundary grid (error vs TTLs/address/port/protocol actually emitted), the HTTP handler's query parsing, target literal forms; every driver incl. SACK sending TTL 255 (C06/C09 lab) and the engines at 250..255.",
-    note="PARTIAL: target literal parsing (net.SplitHostPort, netip.ParseAddr, DNS) is correspondence-only.", technique="Coq proof (arithmetic over all integers) + differential run of the real entry points over a simulated wire on the boundary grid")
+    note="PARTIAL: target literal parsing (net.SplitHostPort, netip.ParseAddr, DNS) is correspondence-only. Tie kind A as well: the TTL range check of runTracerouteOnce is translated from the source on every run and proved equal to the model's.", technique="Coq proof (arithmetic over all integers) + differential run of the real entry points over a simulated wire on the boundary grid")
 TEXT["C20"] = dict(text="Coq theorems over ALL outcomes and ALL error trees (any wrapping depth, errors.Join): sack => SACK trace or the SACK error, SYN never attempted; prefer_sack => SYN attempted iff the SACK error tree contains NotSupported, any other failure returned with every cause, SACK success kept; syn/default => SACK never invoked; "
     "SACK-unavailable = {dial failure, no SACK-permitted, ACK without SACK blocks}; e2e probes use SYN. Correspondence: real performTCPFallback on random error trees; real runTracerouteOnce against a loopback listener with synthesised handshakes and injected faults (probe kinds on the wire, connections opened).",
     note="The classification of real SACK failures (sack_run) is validated by the real runs (kind 12), not proved from the SACK code.", technique="Coq proof (induction-free case analysis over outcome/error-tree predicates) + differential run of the real selector and the real TCP entry point")
@@ -101,7 +101,7 @@ TEXT["C20"] = dict(text="Coq theorems over ALL outcomes and ALL error trees (any
 TEXT["C11"] = dict(text="Coq theorems: IP-ID blocks from ANY allocation sequence and ANY 32-bit counter value share no identifier while <= 65536 are live (incl. both wrap-arounds); n <= 65536 consecutive echo ids are distinct; a packet can be a genuine reply for two ICMP runs only if their echo ids are equal, "
     "for two UDP/TCP/SACK runs only if they probe the same target endpoint and (direct replies / strict checking) use the same local endpoint. With C01 (hop => genuine) replies to one run's probes cannot become another run's hops unless identifiers collide: on raw bytes a reply that is genuine for run B is never a hop for run A (foreign_*_reply_is_noise), and on the engine level, for ANY interleaving of own and foreign packets, nothing foreign enters the result and every own reply readable by the deadline is accepted (shared_wire_isolation). "
     "Correspondence: real allocators (sequential + concurrent goroutines) vs the model; real driver pairs alive together, each fed the other's genuine replies; 2..6 real runs / whole requests at once over one simulated wire where every handle sees every packet, each of which must report the ideal path of its own flow.",
-    note="PARTIAL: bit-for-bit equality with the solo result is not provable (nor true) for replies that become readable within one poll interval after the deadline; the engine lift is proved for the parallel engine only; cross-protocol pairs are correspondence-only (shared-wire lab mixes protocols). Residues named in DESIGN (relaxed SACK to one target, Paris mode, UDP fixed IP-ID block).",
+    note="PARTIAL: bit-for-bit equality with the solo result is not provable (nor true) for replies that become readable within one poll interval after the deadline; the engine lift is proved for the parallel engine only; cross-protocol pairs are correspondence-only (shared-wire lab mixes protocols). Residues named in DESIGN (relaxed SACK to one target, Paris mode, UDP fixed IP-ID block). Tie kind A as well: AllocPacketID and nextEchoID are translated from the source on every run (uint32 counter arithmetic, uint16 truncation) and proved equal to the allocator model.",
     technique="Coq proof (modular arithmetic over all counter values; identifier-collision lemma on the genuineness predicate) + differential run of real allocators, of real driver pairs and of concurrent real runs on a shared simulated wire")
 
 TEXT["C10"] = dict(text="Tie kind A: every function of /repo that calls packets.NewSourceSink is translated on every run (tools/goextract/lifecycle.go) into a program over handle operations (open, fallible step + error block, branch, close, defer, return); Coq proves that EVERY execution of every extracted program closes an opened handle pair exactly once each and never before opening it (enumeration of all paths + soundness theorem; statements the translator does not understand are rejected). "
